@@ -20,12 +20,12 @@ func (g *gen) mutate() {
 	if len(g.cfgs) == 0 {
 		return
 	}
-	n := 1 + g.r.Intn(3)
-	for i := 0; i < n; i++ {
+	// exactly ONE object of the case is damaged, in one way: a finding is then attributed to that mutation
+	for try := 0; try < 40; try++ {
 		idx := g.r.Intn(len(g.cfgs))
 		c := &g.cfgs[idx]
-		if len(c.Muts) > 0 {
-			continue // one mutation per object: the tag names the damage exactly
+		if c.Kind == "WorkloadEntry" && c.Name == "waypoint-a" {
+			continue
 		}
 		cc, err := c.toConfig()
 		if err != nil {
@@ -41,6 +41,7 @@ func (g *gen) mutate() {
 		// which is what the "-nil-" mutations below leave after the JSON round trip.
 		c.JSON = specJSON(pm)
 		c.Muts = append(c.Muts, "tag:"+tag)
+		return
 	}
 }
 
